@@ -4,6 +4,10 @@ from ..engines import tablemethod as F
 
 
 def run(ctx):
+    # language-level slips in the modules the property is anchored in (engine Y)
+    from ..engines import gotchas as GY
+    GY.run(ctx, ('rule_db.forest', 'typing'))
+    ctx.floor("Y", 1)
     ctx.extra["explanation"] = (
         "static analysis (ast, no execution) of TableMethod and Function in rule_db/forest.py: the "
         "tables kept next to the function f (shifts = child value + shift - parent value, the "
